@@ -137,6 +137,10 @@ func init() {
 					f.Fails = true
 					if before {
 						f.Content = nil
+						// ... or a real file-system fault instead of a failing writer function
+						if k := c.Rng.Intn(3); k > 0 {
+							f.Source = []string{"", "fs-dir", "fs-gone"}[k]
+						}
 					}
 					where = fmt.Sprintf("file%d", idx-len(spc.Parts))
 				}
